@@ -681,5 +681,428 @@ theorem readBody_writeBody_arrays_ascii (c : Coding α) (L : GoFloatText c) (cfg
       Bool.false_eq_true, if_false, hcount, flines, hfaces, pure, Except.pure]
 
 
+/-! ## format-generic assembly: from "the right arrays" to `RoundTrips` -/
+
+/-- what the vertex stage must deliver for a recognised writer `w` (mesh with at least one corner): the assembled mesh
+carries under `w`'s key the attribute array mapped by `G w`, and `quant` of the format is `G w` -/
+def Delivers [BEq α] (c : Coding α) (cfg : WriterCfg) (m : MeshVal α) (built : List Built) (rows : List (List (List α)))
+    (G : WProp → α → α) : Prop :=
+  ∀ (base : MeshVal α) (w : WProp), w ∈ selectWriters cfg m → comesBack w = true →
+    ∃ a orig, m.find w.dim w.attr = some a ∧
+      (applyColumns base built rows).find w.dim w.attr = some ⟨w.dim, w.attr, a.data.map (List.map (G w))⟩ ∧
+      gather a.data m.indices = .ok orig ∧
+      orig.mapM (fun comps => comps.mapM (quant c cfg.format w.dim w.ty)) = some (orig.map (List.map (G w)))
+
+/-- welded result (point clouds, triangle meshes without per-corner UVs) -/
+theorem roundTrips_welded [BEq α] [LawfulBEq α] (c : Coding α) (cfg : WriterCfg) (m : MeshVal α)
+    (hnotex : ¬ (m.topo = .triangle ∧ hasTexCoord m = true)) (built : List Built) (rows : List (List (List α)))
+    (G : WProp → α → α) (hdel : m.indices ≠ [] → Delivers c cfg m built rows G) :
+    RoundTrips c cfg m (applyColumns ⟨m.topo, m.indices, [], none⟩ built rows) = true := by
+  have ht := applyColumns_topo (⟨m.topo, m.indices, [], none⟩ : MeshVal α) built rows
+  simp only [RoundTrips, Bool.and_eq_true, List.all_eq_true, decide_eq_true_eq, ht.1, primCount, ht.2, true_and]
+  refine ⟨?_, by simp [hnotex]⟩
+  intro w hw
+  simp only [List.mem_filter, Bool.and_eq_true] at hw
+  obtain ⟨hws, hcb, _⟩ := hw
+  by_cases hemp : m.indices = []
+  · have hb0 := ht.2
+    simp only at hb0
+    rw [hemp] at hb0
+    simp [cornerVals, hb0, hemp]
+  · obtain ⟨a, orig, ha, hfindb, ho, hmm⟩ := hdel hemp ⟨m.topo, m.indices, [], none⟩ w hws hcb
+    obtain ⟨hc1, hc2⟩ := cornerVals_mapped m _ ht.2 w.dim w.attr a ha (List.map (G w)) hfindb orig ho
+    simp [hc1, hc2, hmm]
+
+/-- unwelded result (triangle meshes WITH per-corner UVs): `uvs` is the per-corner list the face stage collected -/
+theorem roundTrips_unwelded [BEq α] [LawfulBEq α] (c : Coding α) (cfg : WriterCfg) (m : MeshVal α) (hwf : m.WF = true)
+    (htri : m.topo = .triangle) (htc : hasTexCoord m = true) (built : List Built) (rows : List (List (List α)))
+    (hrowsl : rows.length = m.attrLen) (G : WProp → α → α) (hdel : m.indices ≠ [] → Delivers c cfg m built rows G)
+    (tex : Attr α) (htex : m.find 2 texCoordAttr = some tex) (origUV uvs : List (List α))
+    (hoUV : gather tex.data m.indices = .ok origUV)
+    (hmmuv : origUV.mapM (fun comps => comps.mapM (quantUV c cfg.format)) = some uvs)
+    (huvl : uvs.length = m.indices.length) :
+    ∃ back, assemble built m.attrLen rows (some (m.indices, uvs)) = .ok back ∧ RoundTrips c cfg m back = true := by
+  by_cases hemp : m.indices = []
+  · have hu0 : uvs = [] := by cases uvs <;> simp_all
+    have ht := applyColumns_topo (⟨.triangle, ([] : List Int), [], none⟩ : MeshVal α) built rows
+    refine ⟨applyColumns ⟨.triangle, [], [], none⟩ built rows, by simp [assemble, hu0, hemp, pure, Except.pure], ?_⟩
+    simp only [RoundTrips, Bool.and_eq_true, List.all_eq_true, decide_eq_true_eq, ht.1, htri, primCount, ht.2, hemp,
+      true_and]
+    refine ⟨?_, ?_⟩
+    · intro w _
+      simp [cornerVals, ht.2, hemp]
+    · simp [cornerVals, ht.2, hemp, htc]
+  · have hmne : m.indices.isEmpty = false := by cases hm : m.indices <;> simp_all
+    have ht := applyColumns_topo (⟨.triangle, m.indices, [], none⟩ : MeshVal α) built rows
+    have hmlen := applyColumns_len (⟨.triangle, m.indices, [], none⟩ : MeshVal α) built rows (by simp)
+    let g : Attr α → List (List α) := fun a => ((gather a.data m.indices).toOption).getD []
+    have hg : ∀ a ∈ (applyColumns (⟨.triangle, m.indices, [], none⟩ : MeshVal α) built rows).attrs,
+        gather a.data m.indices = .ok (g a) := by
+      intro a ha
+      have hl := hmlen a ha
+      obtain ⟨out, hout⟩ := gather_ok a.data m.indices (fun i hi => by
+        have := WF_idx m hwf i hi; exact ⟨this.1, by omega⟩)
+      simp [g, hout, Except.toOption]
+    have hupos : 0 < uvs.length := by
+      rw [huvl]; cases hm : m.indices with
+      | nil => exact absurd hm hemp
+      | cons x xs => simp
+    have hune : uvs ≠ [] := by intro h0; rw [h0] at hupos; simp at hupos
+    refine ⟨_, assemble_uv built m.attrLen rows m.indices uvs hupos huvl g hg, ?_⟩
+    have hdel' := hdel hemp
+    generalize hmesh : applyColumns (⟨.triangle, m.indices, [], none⟩ : MeshVal α) built rows = mesh at *
+    generalize hback : (unweldedOf mesh g).set 2 texCoordAttr uvs = back
+    have hbt : back.topo = .triangle ∧ back.indices = (List.range m.indices.length).map Int.ofNat := by
+      rw [← hback]
+      have := set_topo (unweldedOf mesh g) 2 texCoordAttr uvs
+      rw [this.1, this.2]
+      exact ⟨ht.1, by simp [unweldedOf, ht.2]⟩
+    have hbne : back.indices.isEmpty = false := by
+      rw [hbt.2]; cases hm : m.indices <;> simp_all
+    simp only [RoundTrips, Bool.and_eq_true, List.all_eq_true, decide_eq_true_eq, hbt.1, htri, primCount, hbt.2,
+      List.length_map, List.length_range, true_and]
+    refine ⟨?_, ?_⟩
+    · intro w hw
+      simp only [List.mem_filter, Bool.and_eq_true, Bool.not_eq_true', decide_eq_true_eq] at hw
+      obtain ⟨hws, hcb, hnt⟩ := hw
+      have hkey : ((2 : Nat), texCoordAttr) ≠ (w.dim, w.attr) := by
+        intro he
+        have h1 : w.dim = 2 := (Prod.mk.inj he).1.symm
+        have h2 : w.attr = texCoordAttr := (Prod.mk.inj he).2.symm
+        simp [htri, h1, h2] at hnt
+      obtain ⟨a, orig, ha, hfindm, ho, hmm⟩ := hdel' ⟨.triangle, m.indices, [], none⟩ w hws hcb
+      rw [hmesh] at hfindm
+      have horl : orig.length = m.indices.length := gather_length _ _ _ ho
+      have hfb : back.find w.dim w.attr = some ⟨w.dim, w.attr, orig.map (List.map (G w))⟩ := by
+        rw [← hback, set_find_ne _ _ _ _ _ _ hkey]
+        simp only [MeshVal.find, unweldedOf] at hfindm ⊢
+        rw [find_map_data, hfindm]
+        simp only [Option.map_some, g, gather_map, ho, Except.map, Except.toOption, Option.getD_some]
+      have hgb : gather (orig.map (List.map (G w))) back.indices = .ok (orig.map (List.map (G w))) := by
+        rw [hbt.2, ← horl]
+        have := gather_range _ (orig.map (List.map (G w)))
+        simpa using this
+      simp [cornerVals, hmne, hbne, ha, ho, hfb, hgb, Except.toOption, hmm]
+    · have hfbt : back.find 2 texCoordAttr = some ⟨2, texCoordAttr, uvs⟩ := by
+        rw [← hback]; exact set_find_eq _ _ _ _ hune
+      have hgbt : gather uvs back.indices = .ok uvs := by
+        rw [hbt.2, ← huvl]
+        exact gather_range _ uvs
+      simp [htc, cornerVals, hmne, hbne, htex, hoUV, hfbt, hgbt, Except.toOption, hmmuv]
+
+
+/-! ## ASCII: the arrays are the right ones -/
+
+/-- the value an ASCII-printed scalar of type `t` reads back as (under the law of the float text) -/
+def quantA (c : Coding α) (L : GoFloatText c) (dim : Nat) : SType → α → α
+  | .uchar, v => c.norm8 dim (c.ofInt (c.u8 v).toNat)
+  | .float, v => c.unf32 (c.f32 v)
+  | .double, v => c.unf32 (c.f32 v)
+  | _, v => L.imgI v
+
+theorem quant_ascii_some (c : Coding α) (L : GoFloatText c) (dim : Nat) (t : SType) (ht : t ≠ .char) (v : α) :
+    quant c .ascii dim t v = some (quantA c L dim t v) := by
+  cases t <;> simp_all [quant, encScalarAscii, quantA, L.parse32_showF, L.parse32_showI,
+    L.parse32_showU8 _ (c.u8 v).toNat_lt]
+
+theorem record_at_gen (m : MeshVal α) (hwf : m.WF = true) (v : Nat) (ws : List WProp) (vals : List α)
+    (hrec : vertexRecord m ws v = .ok vals) (hnd : ((headerProps ws).map (·.1)).Nodup)
+    (w : WProp) (hw : w ∈ ws) (comps : List α) (hwv : writerValues m w v = .ok comps)
+    (idxs : List Nat) (hlen : idxs.length = w.names.length)
+    (hidx : ∀ k (hk : k < idxs.length) (hk' : k < w.names.length), ((headerProps ws)[idxs[k]]?).map (·.1) = some w.names[k])
+    (F : SType → α → Option α) (G : α → α) (hF : ∀ x, F w.ty x = some (G x)) :
+    idxs.filterMap (fun i =>
+        match (writerTypes ws)[i]?, vals[i]? with
+        | some t, some x => F t x
+        | _, _ => none)
+      = comps.map G := by
+  simp only [vertexRecord] at hrec
+  cases hp : ws.mapM (fun w => writerValues m w v) with
+  | error e => simp [hp, bind, Except.bind] at hrec
+  | ok parts =>
+    simp [hp, bind, Except.bind, pure, Except.pure] at hrec
+    subst hrec
+    have hall := mapM_ok_forall₂ _ _ _ hp
+    have hlens : All2 (fun (w : WProp) (p : List α) => p.length = w.names.length) ws parts :=
+      hall.imp (fun w p h => writerValues_length m hwf w v p h)
+    have hzip : (w, comps) ∈ ws.zip parts := by
+      clear hlens hnd hidx hp
+      induction hall with
+      | nil => simp at hw
+      | @cons w0 p0 ws' parts' h0 _ ih =>
+        simp at hw
+        rcases hw with rfl | hw
+        · rw [hwv] at h0; simp at h0; subst h0; simp
+        · simp only [List.zip_cons_cons, List.mem_cons]; exact .inr (ih hw)
+    have hcl : comps.length = w.names.length := writerValues_length m hwf w v comps hwv
+    apply filterMap_eq_of_pointwise
+    · simp [hlen, hcl]
+    · intro k hk hk'
+      simp only [List.length_map] at hk'
+      obtain ⟨i, h1, h2⟩ := parallel_at hlens w comps hzip k (by omega) hk'
+      have hik := hidx k hk (by omega)
+      cases hpi : (headerProps ws)[idxs[k]]? with
+      | none => simp [hpi] at hik
+      | some q =>
+        simp [hpi] at hik
+        have hq : (headerProps ws)[idxs[k]]? = some (w.names[k]'(by omega), q.2) := by rw [hpi, ← hik]
+        have hii := idx_unique (headerProps ws) hnd i idxs[k] _ _ _ h1 hq
+        rw [hii] at h1 h2
+        have hty : (writerTypes ws)[idxs[k]]? = some w.ty := by
+          rw [← headerProps_types, List.getElem?_map, h1]; rfl
+        simp [hty, h2, hF]
+
+/-- ASCII readers located where their names are -/
+structure LocatedNamedA (props : List (Bytes × SType)) (b : Built) (idxs : List Nat) : Prop where
+  loc : LocatedA (props.map (·.2)) b idxs
+  len : idxs.length = b.names.length
+  named : ∀ k (hk : k < idxs.length) (hk' : k < b.names.length), (props[idxs[k]]?).map (·.1) = some b.names[k]
+
+structure ClaimOKA (cfg : WriterCfg) (m : MeshVal α) (bl : List (Built × List Nat)) : Prop where
+  built : bl.map (·.1) = buildAll false (headerProps (selectWriters cfg m)) defaultReaders true
+  located : ∀ p ∈ bl, LocatedNamedA (headerProps (selectWriters cfg m)) p.1 p.2
+  demanded : ∀ w ∈ selectWriters cfg m, comesBack w = true →
+    ∃ j, ∃ hj : j < bl.length, bl[j].1.attr = w.attr ∧ bl[j].1.names = w.names ∧
+      ∀ j' (hj' : j' < bl.length), j < j' → Built.key bl[j'].1 ≠ Built.key bl[j].1
+
+theorem column_of_writer_ascii (c : Coding α) (L : GoFloatText c) (m : MeshVal α) (hwf : m.WF = true) (ws : List WProp)
+    (hnd : ((headerProps ws).map (·.1)).Nodup) (recs : List (List α))
+    (hrecs : (List.range m.attrLen).mapM (vertexRecord m ws) = .ok recs)
+    (w : WProp) (hw : w ∈ ws) (hty : w.ty ≠ .char) (a : Attr α) (ha : m.find w.dim w.attr = some a)
+    (bl : List (Built × List Nat)) (j : Nat) (hj : j < bl.length) (hnames : bl[j].1.names = w.names)
+    (hln : LocatedNamedA (headerProps ws) bl[j].1 bl[j].2) :
+    recs.map (fun vals => (rowOfA c (writerTypes ws) bl vals).getD j [])
+      = a.data.map (List.map (quantA c L w.dim w.ty)) := by
+  have hall := mapM_ok_forall₂ _ _ _ hrecs
+  have hrl : recs.length = m.attrLen := by simpa using hall.length_eq
+  obtain ⟨hmem, hdim⟩ := find_mem m _ _ a ha
+  have hal : a.data.length = m.attrLen := WF_len m hwf a hmem
+  apply List.ext_getElem
+  · simp [hrl, hal]
+  · intro v hv hv'
+    simp only [List.length_map] at hv hv'
+    have hrec : vertexRecord m ws v = .ok recs[v] := by
+      have := PlyCompose.All2.get hall v (by simp; omega) hv
+      simpa using this
+    have hwv : writerValues m w v = .ok a.data[v] := by
+      simp [writerValues, ha, List.getElem?_eq_getElem hv']
+    have hlen : bl[j].2.length = w.names.length := by rw [hln.len, hnames]
+    have := record_at_gen m hwf v ws recs[v] hrec hnd w hw a.data[v] hwv bl[j].2 hlen
+      (fun k hk hk' => by
+        have := hln.named k hk (by rw [hnames]; exact hk')
+        simpa [hnames] using this) (quant c .ascii w.dim) (quantA c L w.dim w.ty)
+      (fun x => quant_ascii_some c L w.dim w.ty hty x)
+    simp only [List.getElem_map, rowOfA, List.getD_eq_getElem?_getD, List.getElem?_map,
+      List.getElem?_eq_getElem hj, Option.map_some, Option.getD_some]
+    have hdimeq : bl[j].1.names.length = w.dim := by rw [hnames]; rfl
+    simp only [hdimeq]
+    exact this
+
+
+theorem faceUVA_flatten (m : MeshVal α) (hwf : m.WF = true) (tex : Attr α)
+    (htex : m.find 2 texCoordAttr = some tex) (tris : List (Int × Int × Int)) (fs : List (WFace α))
+    (hc : chunk3 m.indices = some tris) (hfs : faceRecords m tris = .ok fs) (orig : List (List α))
+    (ho : gather tex.data m.indices = .ok orig) :
+    (fs.map faceUVA).flatten = orig := by
+  obtain ⟨hmem, hdim⟩ := find_mem m _ _ tex htex
+  have hitem : ∀ x ∈ tex.data, x.length = 2 := fun x hx => by rw [WF_items m hwf tex hmem x hx, hdim]
+  rw [chunk3_flatten _ _ hc, gather_eq_mapM] at ho
+  simp only [faceRecords, htex] at hfs
+  have hall := mapM_ok_forall₂ _ tris fs hfs
+  clear hfs hc
+  induction hall generalizing orig with
+  | nil => simp [pure, Except.pure] at ho; subst ho; rfl
+  | @cons t f ts fs' hxy _ ih =>
+    obtain ⟨a, b, c'⟩ := t
+    simp only [List.map_cons, List.flatten_cons] at ho
+    obtain ⟨o1, o2, h1, h2, rfl⟩ := mapM_append_ok _ _ _ _ ho
+    simp only [List.mapM_cons, List.mapM_nil] at h1
+    cases ha : atIdx tex.data a with
+    | error e => simp [ha, bind, Except.bind] at h1
+    | ok p1 =>
+      cases hb : atIdx tex.data b with
+      | error e => simp [ha, hb, bind, Except.bind] at h1
+      | ok p2 =>
+        cases hcc : atIdx tex.data c' with
+        | error e => simp [ha, hb, hcc, bind, Except.bind] at h1
+        | ok p3 =>
+          simp [ha, hb, hcc, bind, Except.bind, pure, Except.pure] at h1 hxy
+          subst h1 hxy
+          have l1 := hitem p1 (atIdx_mem _ _ _ ha)
+          have l2 := hitem p2 (atIdx_mem _ _ _ hb)
+          have l3 := hitem p3 (atIdx_mem _ _ _ hcc)
+          rw [List.map_cons, List.flatten_cons, ih o2 h2]
+          match p1, l1, p2, l2, p3, l3 with
+          | [x1, y1], _, [x2, y2], _, [x3, y3], _ => simp [faceUVA]
+
+/-- a printed scalar type is one the ASCII writer implements (`char` panics) -/
+theorem written_type_ascii (c : Coding α) (m : MeshVal α) (hwf : m.WF = true) (ws : List WProp)
+    (vals : List α) (rec : Bytes) (v : Nat) (hrec : vertexRecord m ws v = .ok vals)
+    (henc : encRecordAscii c (writerTypes ws) vals = .ok rec) (w : WProp) (hw : w ∈ ws) (hne : w.names ≠ []) :
+    w.ty ≠ .char := by
+  have hvl := vertexRecord_length m hwf v ws vals hrec
+  obtain ⟨toks, htoks, _⟩ := encRecordAscii_toks c _ vals rec henc
+  obtain ⟨htl, hat⟩ := toks_at c _ vals toks hvl htoks
+  simp only [vertexRecord] at hrec
+  cases hp : ws.mapM (fun w => writerValues m w v) with
+  | error e => simp [hp, bind, Except.bind] at hrec
+  | ok parts =>
+    simp [hp, bind, Except.bind, pure, Except.pure] at hrec
+    subst hrec
+    have hall := mapM_ok_forall₂ _ _ _ hp
+    have hlens : All2 (fun (w : WProp) (p : List α) => p.length = w.names.length) ws parts :=
+      hall.imp (fun w p h => writerValues_length m hwf w v p h)
+    obtain ⟨comps, hwv⟩ := PlyCompose.All2.exists_left hall w hw
+    have hzip : (w, comps) ∈ ws.zip parts := by
+      clear hlens hp hvl htoks hat htl henc
+      induction hall with
+      | nil => simp at hw
+      | @cons w0 p0 ws' parts' h0 _ ih =>
+        simp at hw
+        rcases hw with rfl | hw
+        · rw [hwv] at h0; simp at h0; subst h0; simp
+        · simp only [List.zip_cons_cons, List.mem_cons]; exact .inr (ih hw)
+    have hcl : comps.length = w.names.length := writerValues_length m hwf w v comps hwv
+    have h0 : 0 < w.names.length := by cases hn : w.names <;> simp_all
+    obtain ⟨i, h1, h2⟩ := parallel_at hlens w comps hzip 0 h0 (by omega)
+    obtain ⟨hi, _⟩ := List.getElem?_eq_some_iff.mp h2
+    have hty : (writerTypes ws)[i]? = some w.ty := by
+      rw [← headerProps_types, List.getElem?_map, h1]; rfl
+    obtain ⟨hi', hte⟩ := List.getElem?_eq_some_iff.mp hty
+    have := hat i hi' hi (by omega)
+    rw [hte] at this
+    intro hc
+    rw [hc] at this
+    simp [encScalarAscii] at this
+
+theorem delivers_ascii [BEq α] (c : Coding α) (L : GoFloatText c) (cfg : WriterCfg) (m : MeshVal α) (body : Bytes)
+    (hf : cfg.format = .ascii) (hwf : m.WF = true) (h : writeBody c cfg m = .ok body)
+    (hnd : ((headerProps (selectWriters cfg m)).map (·.1)).Nodup)
+    (bl : List (Built × List Nat)) (hcl : ClaimOKA cfg m bl) (recs : List (List α))
+    (hrecs : (List.range m.attrLen).mapM (vertexRecord m (selectWriters cfg m)) = .ok recs)
+    (hemp : m.indices ≠ []) :
+    Delivers c cfg m (bl.map (·.1)) (recs.map (rowOfA c (writerTypes (selectWriters cfg m)) bl))
+      (fun w => quantA c L w.dim w.ty) := by
+  intro base w hws hcb
+  obtain ⟨i0, hi0⟩ := List.exists_mem_of_ne_nil _ hemp
+  have hpos : 0 < m.attrLen := by have := WF_idx m hwf i0 hi0; omega
+  have hall := mapM_ok_forall₂ _ _ _ hrecs
+  have hrl : recs.length = m.attrLen := by simpa using hall.length_eq
+  have hr0 : vertexRecord m (selectWriters cfg m) 0 = .ok recs[0] := by
+    have := PlyCompose.All2.get hall 0 (by simpa using hpos) (by omega)
+    simpa using this
+  have hfind : ∃ a, m.find w.dim w.attr = some a := by
+    have hr0' := hr0
+    simp only [vertexRecord] at hr0'
+    cases hp : (selectWriters cfg m).mapM (fun w => writerValues m w 0) with
+    | error e => simp [hp, bind, Except.bind] at hr0'
+    | ok parts =>
+      obtain ⟨p, hp'⟩ := PlyCompose.All2.exists_left (mapM_ok_forall₂ _ _ _ hp) w hws
+      simp only [writerValues] at hp'
+      cases hfa : m.find w.dim w.attr with
+      | none => simp [hfa] at hp'
+      | some a => exact ⟨a, rfl⟩
+  obtain ⟨a, ha⟩ := hfind
+  obtain ⟨hmem, hdim⟩ := find_mem m _ _ a ha
+  -- the type is printable
+  obtain ⟨recs', vbytes, faceBytes, hrecs', hallenc, _, _, _⟩ := writeBody_ascii_parts c cfg m body hf h
+  rw [hrecs] at hrecs'
+  have hre : recs' = recs := by injection hrecs' with h'; exact h'.symm
+  subst hre
+  have hvl : vbytes.length = recs'.length := hallenc.length_eq
+  have henc0 := PlyCompose.All2.get hallenc 0 (by omega) (by omega)
+  have hty := written_type_ascii c m hwf _ _ _ 0 hr0 henc0 w hws (comesBack_names_ne w hcb)
+  obtain ⟨j, hj, hattr, hnames, hlastj⟩ := hcl.demanded w hws hcb
+  have hcol := column_of_writer_ascii c L m hwf _ hnd recs' hrecs w hws hty a ha bl j hj hnames
+    (hcl.located _ (List.getElem_mem hj))
+  have hj' : j < (bl.map (·.1)).length := by simpa using hj
+  have hrows : recs'.map (rowOfA c (writerTypes (selectWriters cfg m)) bl) ≠ [] := by
+    cases hr : recs' with
+    | nil => rw [hr] at hrl; simp at hrl; omega
+    | cons r rs => simp
+  have hfindb := applyColumns_find base (bl.map (·.1))
+    (recs'.map (rowOfA c (writerTypes (selectWriters cfg m)) bl)) j hj'
+    (fun j' hj'' hlt => by
+      have := hlastj j' (by simpa using hj'') hlt
+      simpa using this) hrows
+  have hkd : ((bl.map (fun (x : Built × List Nat) => x.1))[j]'hj').names.length = w.dim := by simp [hnames, WProp.dim]
+  have hka : ((bl.map (fun (x : Built × List Nat) => x.1))[j]'hj').attr = w.attr := by simp [hattr]
+  rw [hkd, hka] at hfindb
+  simp only [List.map_map, Function.comp_def] at hfindb
+  rw [hcol] at hfindb
+  obtain ⟨orig, ho⟩ := gather_ok a.data m.indices (fun i hi => by
+    have := WF_idx m hwf i hi
+    have hal : a.data.length = m.attrLen := WF_len m hwf a hmem
+    exact ⟨this.1, by omega⟩)
+  refine ⟨a, orig, ha, hfindb, ho, ?_⟩
+  apply mapM_some_map
+  intro comps
+  rw [hf]
+  exact mapM_some_map _ _ (fun x => quant_ascii_some c L w.dim w.ty hty x) comps
+
+
+theorem faceUVA_nil (fs : List (WFace α)) (h : ∀ f ∈ fs, UvOk false f) : (fs.map faceUVA).flatten = [] := by
+  induction fs with
+  | nil => rfl
+  | cons f fs ih =>
+    have hf := h f (by simp)
+    have : faceUVA f = [] := by
+      cases huv : f.uv with
+      | none => simp [faceUVA, huv]
+      | some uv => simp [UvOk, huv] at hf
+    simp [this, ih (fun g hg => h g (by simp [hg]))]
+
+/-- THE COMPOSED ROUND TRIP, ASCII, at the parsed-header interface -/
+theorem readback_ascii [BEq α] [LawfulBEq α] (c : Coding α) (L : GoFloatText c) (cfg : WriterCfg) (m : MeshVal α)
+    (body : Bytes) (hf : cfg.format = .ascii) (hwf : m.WF = true) (h : writeBody c cfg m = .ok body)
+    (htys : m.attrLen = 0 ∨ writerTypes (selectWriters cfg m) ≠ [])
+    (hpoint : m.topo = .point → m.indices = (List.range m.attrLen).map Int.ofNat)
+    (hsize : m.attrLen ≤ 2 ^ 31)
+    (bl : List (Built × List Nat)) (hcl : ClaimOKA cfg m bl) :
+    ∃ back, readBody c defaultReader (writeHeader cfg m) body = .ok back ∧ RoundTrips c cfg m back = true := by
+  have hnd := (names_of_writeBody_ok c cfg m body h).2
+  have hloc : ∀ p ∈ bl, LocatedA (writerTypes (selectWriters cfg m)) p.1 p.2 := by
+    intro p hp
+    have := (hcl.located p hp).loc
+    rwa [headerProps_types] at this
+  obtain ⟨recs, hrecs, hpt, htr⟩ := readBody_writeBody_arrays_ascii c L cfg m body hf hwf h htys hsize bl hcl.built hloc
+  have hrl : recs.length = m.attrLen := by simpa using (mapM_ok_forall₂ _ _ _ hrecs).length_eq
+  have hdel := fun hemp => delivers_ascii c L cfg m body hf hwf h hnd bl hcl recs hrecs hemp
+  by_cases ht : m.topo = .triangle
+  · obtain ⟨tris, fs, hc, hfs, hread⟩ := htr ht
+    obtain ⟨hidx, huv⟩ := faceRecords_shape m hwf tris fs hfs
+    by_cases htc : hasTexCoord m = true
+    · obtain ⟨tex, htex⟩ : ∃ tex, m.find 2 texCoordAttr = some tex := by
+        simp only [hasTexCoord, MeshVal.has] at htc
+        exact Option.isSome_iff_exists.mp htc
+      obtain ⟨hmemT, _⟩ := find_mem m _ _ tex htex
+      have hlenT : tex.data.length = m.attrLen := WF_len m hwf tex hmemT
+      obtain ⟨origUV, hoUV⟩ := gather_ok tex.data m.indices (fun i hi => by
+        have := WF_idx m hwf i hi; exact ⟨this.1, by omega⟩)
+      have huvs := faceUVA_flatten m hwf tex htex tris fs hc hfs origUV hoUV
+      have hmm : origUV.mapM (fun comps => comps.mapM (quantUV c cfg.format)) = some origUV := by
+        have hq : ∀ v, quantUV c cfg.format v = some (id v) := by
+          intro v; rw [hf]; simp [quantUV, L.parse64_showF]
+        have := mapM_some_map (fun comps : List α => comps.mapM (quantUV c cfg.format)) (List.map id)
+          (fun comps => mapM_some_map _ _ hq comps) origUV
+        simpa using this
+      rw [hread, huvs]
+      exact roundTrips_unwelded c cfg m hwf ht htc (bl.map (·.1)) _ (by simpa using hrl)
+        (fun w => quantA c L w.dim w.ty) hdel tex htex origUV origUV hoUV hmm (gather_length _ _ _ hoUV)
+    · have hT : hasTexCoord m = false := by simpa using htc
+      rw [hT] at huv
+      rw [hread, faceUVA_nil fs huv]
+      refine ⟨applyColumns ⟨m.topo, m.indices, [], none⟩ (bl.map (·.1))
+        (recs.map (rowOfA c (writerTypes (selectWriters cfg m)) bl)), by simp [assemble, ht, pure, Except.pure], ?_⟩
+      exact roundTrips_welded c cfg m (by simp [hT]) (bl.map (·.1))
+        (recs.map (rowOfA c (writerTypes (selectWriters cfg m)) bl)) (fun w => quantA c L w.dim w.ty) hdel
+  · have hp : m.topo = .point := by cases hm : m.topo <;> simp_all
+    rw [hpt ht]
+    refine ⟨applyColumns ⟨m.topo, m.indices, [], none⟩ (bl.map (·.1))
+      (recs.map (rowOfA c (writerTypes (selectWriters cfg m)) bl)), by simp [assemble, hp, hpoint hp, pure, Except.pure], ?_⟩
+    exact roundTrips_welded c cfg m (by simp [ht]) (bl.map (·.1))
+      (recs.map (rowOfA c (writerTypes (selectWriters cfg m)) bl)) (fun w => quantA c L w.dim w.ty) hdel
+
+
 end PlyAscii
 end PolyVerif
